@@ -12,6 +12,10 @@ package c13
 // transcription of DemonConfig() and compared with THAT build's options and with the
 // listener's configuration AT THAT MOMENT.  After every build the live listener must
 // still equal the model (no write-through).
+//
+// Three cases in ten are histories THROUGH THE REAL TEAMSERVER instead (CaseH.Srv,
+// hs_test.go): listeners with related names in t.Listeners, builds requested by the
+// operator's Gate/Stageless package through Teamserver.DispatchEvent.
 
 import (
 	"fmt"
@@ -57,6 +61,9 @@ type StepH struct {
 type CaseH struct {
 	Listeners []ListenerObj `json:"listeners"`
 	Steps     []StepH       `json:"steps"`
+	// Srv, when set, makes the case a history through the real teamserver (hs_test.go);
+	// Listeners and Steps are unused then.
+	Srv *SrvH `json:"srv,omitempty"`
 }
 
 // ---------------------------------------------------------------------------- generator
@@ -140,6 +147,10 @@ func applyEditL(l HTTPL, e EditL) HTTPL {
 
 func genH(t *rapid.T) CaseH {
 	var c CaseH
+	if rapid.IntRange(0, 9).Draw(t, "through-teamserver") < 3 {
+		c.Srv = genSrvH(t)
+		return c
+	}
 	nl := rapid.IntRange(1, 2).Draw(t, "nlisteners")
 	for i := 0; i < nl; i++ {
 		a := genCaseA(t, false)
@@ -256,6 +267,10 @@ func runHist(c CaseH, report func(*core.Violation)) {
 
 func checkH(c CaseH) *core.Violation {
 	var all []*core.Violation
+	if c.Srv != nil {
+		runSrv(c.Srv, func(v *core.Violation) { all = append(all, v) })
+		return pick.First("C13", all)
+	}
 	runHist(c, func(v *core.Violation) { all = append(all, v) })
 	return pick.First("C13", all)
 }
@@ -263,6 +278,9 @@ func checkH(c CaseH) *core.Violation {
 // ---------------------------------------------------------------------------- classification
 
 func classifyH(c CaseH) core.Class {
+	if c.Srv != nil {
+		return classifySrv(c.Srv)
+	}
 	var cl core.Class
 	n := len(c.Listeners)
 	if n == 0 {
@@ -327,11 +345,14 @@ func classifyH(c CaseH) core.Class {
 func TestC13h(t *testing.T) {
 	core.Run(t, core.Spec[CaseH]{
 		Property: "C13", Sub: "h",
-		Rule: "histories of builds on live listener objects: 1-2 listeners created per case (the first HTTP, the second HTTP or SMB; encodable configurations of (a)), then 2-4 steps of {60%: an operator edit of the chosen HTTP listener changing one or two of user agent / headers / URIs / proxy, applied in place with the same assignments as Teamserver.ListenerEdit; a build with a new Builder and freshly generated options (every choice of (a))}. Covers: rebuild after an edit, two builds with different options on an unchanged listener, builds for two listener objects alternating (HTTP/HTTP and HTTP/SMB). Package-level state of the builder package is not reset between cases. Oracle: every build's block, read by the transcription of DemonConfig(), equals that build's options and the listener's configuration at that moment; the live listener equals the model after every build. Non-trivial: a listener is built for more than once; distinct = (#listeners, HTTP+SMB, #steps, set of rebuild classes / first edited field)",
+		Rule: "histories of builds on live listener objects: 1-2 listeners created per case (the first HTTP, the second HTTP or SMB; encodable configurations of (a)), then 2-4 steps of {60%: an operator edit of the chosen HTTP listener changing one or two of user agent / headers / URIs / proxy, applied in place with the same assignments as Teamserver.ListenerEdit; a build with a new Builder and freshly generated options (every choice of (a))}. Covers: rebuild after an edit, two builds with different options on an unchanged listener, builds for two listener objects alternating (HTTP/HTTP and HTTP/SMB). Package-level state of the builder package is not reset between cases. Oracle: every build's block, read by the transcription of DemonConfig(), equals that build's options and the listener's configuration at that moment; the live listener equals the model after every build. Non-trivial: a listener is built for more than once; distinct = (#listeners, HTTP+SMB, #steps, set of rebuild classes / first edited field). THROUGH THE TEAMSERVER (3 cases in 10, label via-dispatch): a real server.Teamserver (private database, no Start()) with one operator on a real websocket; 2-3 listeners are brought up (the first HTTP, the others HTTP 4/7, SMB 2/7, External 1/7; SMB and External by the real ListenerStart, HTTP by ListenerStart's bookkeeping without binding a socket), whose NAMES are drawn from one group of related strings - a base name and 2-4 of its relatives: other letter case, Unicode simple-fold partner (s/U+017F, k/U+212A), leading / trailing blank or tab, NFC vs NFD spelling, prefix, suffix, extension - in random order, one add in eight reusing a taken name (also with another listener type; refused by HEAD). Then a payload is requested for every listener in turn, newest first, each request being the operator's Gate/Stageless package (JSON -> CreatePackage -> EventAppend -> DispatchEvent; fresh options, x64/x86, format Exe 6/10 or any of the five), and 0-2 rounds of {operator Listener/Edit package for a HTTP listener through DispatchEvent, then builds for a relative and for the edited one | another listener of the group, then builds newest first | Listener/Remove of an SMB/External listener, then a build naming the removed one and one that is left | a build naming a group member that no listener has}. The compilers of t.Settings are stubs that store their command line in the -o file, so the payload that arrives on the operator's socket tells which configuration block and transport define it was compiled with. Oracle per request, the model knowing names only as exact strings (HEAD): the name of an existing HTTP/SMB listener => one payload arrives, compiled with that listener's transport define and a block that DemonConfig() reads as that request's options and the settings of the listener with byte-exactly that name as they are at that moment (a payload that instead reads, field by field, as another coexisting listener's configuration is reported as payload-configured-for-other-listener with the relation of the two names); the name of an External listener or of no listener => whatever arrives must not be configured for any existing listener (HEAD: Error message / a block without transport section, equal to a builder's without a listener); the live listener equals the model afterwards. Labels: related-names-coexist (a build names a listener while a relative of it exists), build-while-older|newer-relative-exists:<relation>, relatives-of-different-type, build:unknown-name, build:external-listener, rebuild-after-edit-through-dispatch, build-after-edit-of-relative, add-refused:*; non-trivial: related names coexist at a build, a rebuild after an edit, an unknown or External name; distinct = (kinds built for, closest name relation, flags)",
 		Gen:  genH, Check: checkH, Classify: classifyH,
 		Assumptions: []string{
 			"an edit is performed by assigning Config.UserAgent, Config.Headers, Config.Uris and Config.Proxy on the live *handlers.HTTP — the assignments of Teamserver.ListenerEdit on HEAD — without the database write that accompanies them there (C10/C16 cover that part)",
 			"the assumptions of sub-check a about option strings, hosts and documented defaults apply",
+			"through the teamserver: HTTP listeners are registered without HTTP.Start() (it would bind PortBind on this host and generate a certificate): refusal of a taken name by the real ListenerExist, NewConfigHttp + Config + Teamserver, the announcement Start() makes (ListenerAdd with its database row, EventAppend, EventBroadcast), append to t.Listeners; SMB and External listeners go through the real ListenerStart; HTTP listeners are never removed (HTTP.Stop() waits 5 s)",
+			"through the teamserver: the model follows the server's listener table (whether an add was accepted is read off t.Listeners; acceptance itself is C16's subject); a build counts as finished when no goroutine runs a closure of DispatchEvent any more and a payload or an Error message has arrived (or 80 ms have passed without either); the assembler is the shell's `true`",
+			"a payload requested under a name that no listener has is not judged as such (HEAD delivers one without a transport section); it must only not carry an existing listener's settings",
 		},
 	})
 }
